@@ -5,28 +5,30 @@ Reading a queue (the do-while rule), the minimum front, and popping it (the crux
 namespace Backend.PB
 open Backend
 
-variable {fl : Nat} {T : Nat → Prop} {C : List Nat} {s : BSt}
+variable {c : Cfg} {fl : Nat} {T : Nat → Prop} {C : List Nat} {s : BSt}
 
 /-! ### reading a queue -/
 
 /-- context `i` needs no further reading in this pass -/
-theorem PI.cover (h : PI none fl T C s) (i : Nat)
-    (hl : (s.th i).buf = [] → ∀ st ∈ (s.th i).qStmts, fl ≤ st.ts) : PI none fl (fun j => T j ∧ j ≠ i) C s :=
-  { h with ord := fun hp => { h.ord hp with
+theorem PI.cover (h : PI c none fl T C s) (i : Nat)
+    (hl : c.grace ≠ 0 → c.refreshAfterSample = true → (s.th i).buf = [] → ∀ st ∈ (s.th i).qStmts, fl ≤ st.ts) :
+    PI c none fl (fun j => T j ∧ j ≠ i) C s :=
+  { h with ord := fun hg0 hr0 hp => { h.ord hg0 hr0 hp with
       late := fun j hj hT hb => by
         by_cases hji : j = i
-        · subst hji; exact hl hb
-        · exact (h.ord hp).late j hj (fun ht => hT ⟨ht, hji⟩) hb } }
+        · subst hji; exact hl hg0 hr0 hb
+        · exact (h.ord hg0 hr0 hp).late j hj (fun ht => hT ⟨ht, hji⟩) hb } }
 
 /-- one record moves from the queue of a cached context to its transit buffer -/
-theorem PI.move (h : PI none fl T C s) (i : Nat) (hc : i ∈ s.cache) (st : Stmt) (rest : List Stmt)
-    (hq : (s.th i).qStmts = st :: rest) (hst : st.ts ≤ fl) (f : Th → Th)
+theorem PI.move (h : PI c none fl T C s) (i : Nat) (hc : i ∈ s.cache) (st : Stmt) (rest : List Stmt)
+    (hq : (s.th i).qStmts = st :: rest) (hst : c.grace ≠ 0 → c.refreshAfterSample = true → st.ts ≤ fl) (f : Th → Th)
     (hf : (f (s.th i)).buf = (s.th i).buf ++ [st] ∧ (f (s.th i)).qStmts = rest ∧
       (f (s.th i)).accepted = (s.th i).accepted ∧ (f (s.th i)).q.wpos = (s.th i).q.wpos ∧
       (f (s.th i)).q.wHist.headD 0 = (s.th i).q.wHist.headD 0 ∧ (f (s.th i)).q.rpos = (s.th i).q.rpos + st.size ∧
-      (f (s.th i)).valid = (s.th i).valid) :
-    PI none fl (fun j => T j ∧ j ≠ i) C (s.setTh i f) := by
-  obtain ⟨f1, f2, f3, f4, f5, f6, f7⟩ := hf
+      (f (s.th i)).valid = (s.th i).valid ∧ (f (s.th i)).q.wcache = (s.th i).q.wcache)
+    (hne : (s.th i).q.wcache ≠ (s.th i).q.rpos) :
+    PI c none fl (fun j => T j ∧ j ≠ i) C (s.setTh i f) := by
+  obtain ⟨f1, f2, f3, f4, f5, f6, f7, f8⟩ := hf
   have hchain : chain (f (s.th i)) = chain (s.th i) := by
     simp only [chain, f1, f2, hq, List.append_assoc, List.singleton_append]
   have hcases : ∀ j, (s.setTh i f).th j = s.th j ∨ (j = i ∧ (s.setTh i f).th j = f (s.th i)) := by
@@ -51,9 +53,16 @@ theorem PI.move (h : PI none fl T C s) (i : Nat) (hc : i ∈ s.cache) (st : Stmt
       · rw [h1]; exact h.qc j
       · rw [h1]
         have q0 := h.qc j
-        refine ⟨by rw [f4, f5]; exact q0.wpos, ?_, ?_⟩
+        refine ⟨by rw [f4, f5]; exact q0.wpos, ?_, ?_, ?_⟩
         · rw [f5, f6, f2, q0.sum, hq]; simp; omega
         · rw [f2]; intro r hr; exact q0.pos r (by rw [hq]; exact List.mem_cons_of_mem _ hr)
+        · obtain ⟨k, hk, hw⟩ := q0.wc
+          cases k with
+          | zero => exfalso; apply hne; rw [hw]; simp
+          | succ k =>
+            rw [hq] at hk hw
+            refine ⟨k, by rw [f2]; simpa using hk, ?_⟩
+            rw [f8, f6, f2, hw]; simp; omega
     reg := fun j => by rw [hch]; exact h.reg j
     bufCache := fun j hjr => by
       rcases hcases j with h1 | ⟨rfl, h1⟩
@@ -69,8 +78,8 @@ theorem PI.move (h : PI none fl T C s) (i : Nat) (hc : i ∈ s.cache) (st : Stmt
     pend := fun b y r hy hb hpd => by
       obtain ⟨p1, p2, p3⟩ := h.pend b y r hy hb hpd
       exact ⟨p1, p2, fun j hj => by rw [hch]; exact p3 j hj⟩
-    ord := fun hp => by
-      have o := h.ord (hprem hp)
+    ord := fun hg0 hr0 hp => by
+      have o := h.ord hg0 hr0 (hprem hp)
       exact {
         popSorted := o.popSorted
         above := fun p hpp j hj => by rw [hch]; exact o.above p hpp j hj
@@ -81,7 +90,7 @@ theorem PI.move (h : PI none fl T C s) (i : Nat) (hc : i ∈ s.cache) (st : Stmt
           · rw [h1, f1]; intro r hr
             rcases List.mem_append.mp hr with h2 | h2
             · exact o.bufFloor j r h2
-            · rw [List.mem_singleton.mp h2]; exact hst
+            · rw [List.mem_singleton.mp h2]; exact hst hg0 hr0
         late := fun j hj hT => by
           rcases hcases j with h1 | ⟨rfl, h1⟩
           · rw [h1]
@@ -108,20 +117,23 @@ def rqMove (s : BSt) (i : Nat) (st : Stmt) (rest : List Stmt) : BSt :=
   (rqDecode (rqPrep s i) st).setTh i (fun t =>
     { t with q := qFinishRead (rqDecode (rqPrep s i) st).cfg t.q st.size, qStmts := rest, buf := t.buf ++ [st] })
 
-theorem readQueue_succ (inj : BSt → Nat → BSt) (fl : Nat) (i fuel total : Nat) (s : BSt) :
-    readQueue inj (some fl) i (fuel + 1) total s =
+def rqLate (tsNow : Option Nat) (st : Stmt) : Bool :=
+  match tsNow with | some t => decide (t < st.ts) | none => false
+
+theorem readQueue_succ (inj : BSt → Nat → BSt) (tsNow : Option Nat) (i fuel total : Nat) (s : BSt) :
+    readQueue inj tsNow i (fuel + 1) total s =
       if !(qPrepareRead s.cfg (s.th i).q).2 then rqFin (rqPrep s i) i total else
       match (s.th i).qStmts with
       | [] => rqFin (rqPrep s i) i total
       | st :: rest =>
-        if decide (fl < st.ts) then rqFin (rqPrep s i) i total else
+        if rqLate tsNow st then rqFin (rqPrep s i) i total else
         if total + st.size < (inj (rqMove s i st rest) 3).cfg.qcap ∧
             ((inj (rqMove s i st rest) 3).th i).buf.length < (inj (rqMove s i st rest) 3).cfg.hard
-        then readQueue inj (some fl) i fuel (total + st.size) (inj (rqMove s i st rest) 3)
+        then readQueue inj tsNow i fuel (total + st.size) (inj (rqMove s i st rest) 3)
         else rqCommit (inj (rqMove s i st rest) 3) i := rfl
 
 theorem same_rqCommit (s : BSt) (i : Nat) : Same s (rqCommit s i) :=
-  Same.setTh s i _ (ThEq.ofQ _ _ (qCommitRead_fields _ _))
+  Same.setTh s i _ (ThEq.ofQ' _ _ (qCommitRead_fields _ _))
 
 theorem same_rqFin (s : BSt) (i total : Nat) : Same s (rqFin s i total) := by
   unfold rqFin; split
@@ -132,9 +144,10 @@ theorem same_rqPrep (s : BSt) (i : Nat) : Same s (rqPrep s i) :=
   Same.setTh s i _ (ThEq.ofQ _ _ (qPrepareRead_fields _ _))
 
 /-- the body of one iteration after the record `st` was found eligible: decode, move -/
-theorem PI.rqMove (h : PI none fl T C s) (i : Nat) (hc : i ∈ C) (st : Stmt) (rest : List Stmt)
-    (hq : (s.th i).qStmts = st :: rest) (hst : st.ts ≤ fl) :
-    PI none fl (fun j => T j ∧ j ≠ i) C (rqMove s i st rest) := by
+theorem PI.rqMove (h : PI c none fl T C s) (i : Nat) (hc : i ∈ C) (st : Stmt) (rest : List Stmt)
+    (hq : (s.th i).qStmts = st :: rest) (hst : c.grace ≠ 0 → c.refreshAfterSample = true → st.ts ≤ fl)
+    (hrd : (qPrepareRead s.cfg (s.th i).q).2 = true) :
+    PI c none fl (fun j => T j ∧ j ≠ i) C (rqMove s i st rest) := by
   unfold PB.rqMove
   have hs1 : Same s (rqPrep s i) := same_rqPrep s i
   have hs2 : Same (rqPrep s i) (rqDecode (rqPrep s i) st) := by
@@ -143,18 +156,29 @@ theorem PI.rqMove (h : PI none fl T C s) (i : Nat) (hc : i ∈ C) (st : Stmt) (r
     · exact Same.ofCore rfl
     · exact Same.refl _
   have hs := hs1.trans hs2
-  generalize rqDecode (rqPrep s i) st = s2 at hs ⊢
-  have h2 : PI none fl T C s2 := h.same hs
+  have hlt : i < s.ths.length := by
+    apply Classical.byContradiction; intro hn
+    rw [th_lt_or_default s i (by omega)] at hq; cases hq
+  have hw : ((rqDecode (rqPrep s i) st).th i).q.wcache ≠ ((rqDecode (rqPrep s i) st).th i).q.rpos := by
+    have e1 : (rqDecode (rqPrep s i) st).th i = (rqPrep s i).th i := by
+      unfold rqDecode; split <;> rfl
+    rw [e1]
+    unfold rqPrep
+    rw [th_setTh_same s _ hlt]
+    exact qPrepareRead_true _ _ hrd
+  generalize rqDecode (rqPrep s i) st = s2 at hs hw ⊢
+  have h2 : PI c none fl T C s2 := h.same hs
   have e := hs.th i
-  refine h2.move i (by rw [h2.cacheEq]; exact hc) st rest (by rw [e.q]; exact hq) hst _ ?_
+  refine h2.move i (by rw [h2.cacheEq]; exact hc) st rest (by rw [e.q]; exact hq) hst _ ?_ hw
   have f1 := qFinishRead_fields s2.cfg (s2.th i).q st.size
-  exact ⟨rfl, rfl, rfl, f1.1, congrArg (fun l => List.headD l 0) f1.2.1, f1.2.2, rfl⟩
+  exact ⟨rfl, rfl, rfl, f1.1, congrArg (fun l => List.headD l 0) f1.2.1, f1.2.2.1, rfl, f1.2.2.2⟩
 
 variable {inj : BSt → Nat → BSt}
 
 /-- reading a cached context preserves the invariant, whatever the set of contexts still to be read -/
-theorem PI.readQueue (hi : InjOK inj) (i : Nat) (hc : i ∈ C) (fuel : Nat) :
-    ∀ (T : Nat → Prop) (total : Nat) (s : BSt), PI none fl T C s → PI none fl T C (Backend.readQueue inj (some fl) i fuel total s) := by
+theorem PI.readQueue (hi : InjOK inj) (tsNow : Option Nat)
+    (htn : c.grace ≠ 0 → c.refreshAfterSample = true → tsNow = some fl) (i : Nat) (hc : i ∈ C) (fuel : Nat) :
+    ∀ (T : Nat → Prop) (total : Nat) (s : BSt), PI c none fl T C s → PI c none fl T C (Backend.readQueue inj tsNow i fuel total s) := by
   induction fuel with
   | zero => intro T total s h; exact h
   | succ n ih =>
@@ -163,15 +187,17 @@ theorem PI.readQueue (hi : InjOK inj) (i : Nat) (hc : i ∈ C) (fuel : Nat) :
     have hfin := fun tot => (h.same (same_rqPrep s i)).same (same_rqFin _ i tot)
     split
     · exact hfin total
-    · split
+    · rename_i hrd
+      split
       · exact hfin total
       · rename_i st rest hq
         split
         · exact hfin total
         · rename_i hel
-          have hst : st.ts ≤ fl := by simpa using hel
-          have h3 := (h.rqMove i hc st rest hq hst).weakenT (T' := T) (fun _ hj => hj.1)
-          have h4 := hi _ _ _ _ 3 h3
+          have hst : c.grace ≠ 0 → c.refreshAfterSample = true → st.ts ≤ fl := by
+            intro hg0 hr0; rw [htn hg0 hr0] at hel; simpa [rqLate] using hel
+          have h3 := (h.rqMove i hc st rest hq hst (by simpa using hrd)).weakenT (T' := T) (fun _ hj => hj.1)
+          have h4 := hi _ _ _ _ _ 3 h3
           split
           · exact ih T _ _ h4
           · exact h4.same (same_rqCommit _ i)
@@ -185,17 +211,18 @@ theorem headLe_of_sorted {l : List Stmt} (hs : l.Pairwise (fun a b => a.ts ≤ b
   · exact (List.pairwise_cons.mp hs).1 r hr
 
 /-- the do-while rule: a completed read of context `i` leaves either a non-empty buffer or nothing eligible -/
-theorem PI.readQueue_first (hi : InjOK inj) (i : Nat) (hc : i ∈ C) (fuel total : Nat) (s : BSt)
-    (h : PI none fl T C s) :
-    PI none fl (fun j => T j ∧ j ≠ i) C (Backend.readQueue inj (some fl) i (fuel + 1) total s) := by
+theorem PI.readQueue_first (hi : InjOK inj) (tsNow : Option Nat)
+    (htn : c.grace ≠ 0 → c.refreshAfterSample = true → tsNow = some fl) (i : Nat) (hc : i ∈ C) (fuel total : Nat) (s : BSt)
+    (h : PI c none fl T C s) :
+    PI c none fl (fun j => T j ∧ j ≠ i) C (Backend.readQueue inj tsNow i (fuel + 1) total s) := by
   rw [readQueue_succ]
-  have hfin : ∀ tot, ((s.th i).buf = [] → ∀ st ∈ (s.th i).qStmts, fl ≤ st.ts) →
-      PI none fl (fun j => T j ∧ j ≠ i) C (rqFin (rqPrep s i) i tot) :=
+  have hfin : ∀ tot, (c.grace ≠ 0 → c.refreshAfterSample = true → (s.th i).buf = [] → ∀ st ∈ (s.th i).qStmts, fl ≤ st.ts) →
+      PI c none fl (fun j => T j ∧ j ≠ i) C (rqFin (rqPrep s i) i tot) :=
     fun tot hl => ((h.cover i hl).same (same_rqPrep s i)).same (same_rqFin _ i tot)
   split
   · rename_i hr
     apply hfin
-    intro _ st hst
+    intro _ _ _ st hst
     have q0 := h.qc i
     have e1 := qPrepareRead_false _ _ (by simpa using hr)
     have e2 := q0.sum
@@ -205,25 +232,27 @@ theorem PI.readQueue_first (hi : InjOK inj) (i : Nat) (hc : i ∈ C) (fuel total
     | cons y ys =>
       have := q0.pos y (by rw [hqq]; exact List.mem_cons_self ..)
       rw [hqq] at e2; simp at e2; omega
-  · split
+  · rename_i hrd
+    split
     · rename_i hq
       apply hfin
-      intro _ st hst; rw [hq] at hst; cases hst
+      intro _ _ _ st hst; rw [hq] at hst; cases hst
     · rename_i st rest hq
       split
       · rename_i hel
         apply hfin
-        intro _ r hr
-        have hlt : fl < st.ts := by simpa using hel
+        intro hg0 hr0 _ r hr
+        have hlt : fl < st.ts := by rw [htn hg0 hr0] at hel; simpa [rqLate] using hel
         have hs := (List.pairwise_append.mp (h.sorted i)).2.1
         have := headLe_of_sorted hs hq r hr
         omega
       · rename_i hel
-        have hst : st.ts ≤ fl := by simpa using hel
-        have h3 := h.rqMove i hc st rest hq hst
-        have h4 := hi _ _ _ _ 3 h3
+        have hst : c.grace ≠ 0 → c.refreshAfterSample = true → st.ts ≤ fl := by
+          intro hg0 hr0; rw [htn hg0 hr0] at hel; simpa [rqLate] using hel
+        have h3 := h.rqMove i hc st rest hq hst (by simpa using hrd)
+        have h4 := hi _ _ _ _ _ 3 h3
         split
-        · exact PI.readQueue hi i hc fuel _ _ _ h4
+        · exact PI.readQueue hi tsNow htn i hc fuel _ _ _ h4
         · exact h4.same (same_rqCommit _ i)
 
 /-! ### the minimum front -/
@@ -350,13 +379,14 @@ theorem lowest_mem {s : BSt} {j : Nat} (h : lowest s = some j) : j ∈ s.cache :
 
 /-- the crux of C05: the minimum front is ≤ everything buffered or queued in any registered context, provided
     every registered context with an empty buffer holds only records at or above the cut-off -/
-theorem PIo.pop (h : PIo fl s)
-    (hall : PremI s → ∀ i ∈ s.registry, (s.th i).buf = [] → ∀ r ∈ (s.th i).qStmts, fl ≤ r.ts)
+theorem PIo.pop (h : PIo c fl s)
+    (hall : c.grace ≠ 0 → c.refreshAfterSample = true → PremI s →
+      ∀ i ∈ s.registry, (s.th i).buf = [] → ∀ r ∈ (s.th i).qStmts, fl ≤ r.ts)
     (j : Nat) (hj : j ∈ s.cache) (st : Stmt) (rest : List Stmt) (hb : (s.th j).buf = st :: rest)
     (hmin : ∀ i ∈ s.cache, ∀ f fs, (s.th i).buf = f :: fs → st.ts ≤ f.ts) (f : Th → Th)
     (hf : (f (s.th j)).buf = rest ∧ (f (s.th j)).qStmts = (s.th j).qStmts ∧ (f (s.th j)).accepted = (s.th j).accepted ∧
       (f (s.th j)).q = (s.th j).q ∧ (f (s.th j)).valid = (s.th j).valid) :
-    PIo fl { s.setTh j f with popLog := st :: s.popLog } := by
+    PIo c fl { s.setTh j f with popLog := st :: s.popLog } := by
   obtain ⟨f1, f2, f3, f4, f5⟩ := hf
   let s' : BSt := { s.setTh j f with popLog := st :: s.popLog }
   have hcases : ∀ i, s'.th i = s.th i ∨ (i = j ∧ s'.th i = f (s.th j)) := by
@@ -376,7 +406,7 @@ theorem PIo.pop (h : PIo fl s)
     · rw [h1] at this; exact this hr
     · rw [h1, f3] at this; exact this hr
   unfold PIo at *
-  show PI none fl (fun _ => True) s.cache s'
+  show PI c none fl (fun _ => True) s.cache s'
   exact { h with
     sorted := fun i => by
       rcases hcases i with h1 | ⟨rfl, h1⟩
@@ -387,7 +417,8 @@ theorem PIo.pop (h : PIo fl s)
       rcases hcases i with h1 | ⟨rfl, h1⟩
       · rw [h1]; exact h.qc i
       · rw [h1]; have q0 := h.qc i
-        exact ⟨by rw [f4]; exact q0.wpos, by rw [f4, f2]; exact q0.sum, by rw [f2]; exact q0.pos⟩
+        exact ⟨by rw [f4]; exact q0.wpos, by rw [f4, f2]; exact q0.sum, by rw [f2]; exact q0.pos,
+          by rw [f4, f2]; exact q0.wc⟩
     reg := fun i hne => by
       refine h.reg i ?_
       intro he
@@ -412,9 +443,9 @@ theorem PIo.pop (h : PIo fl s)
     pend := fun b y r hy hbb hpd => by
       obtain ⟨p1, p2, p3⟩ := h.pend b y r hy hbb hpd
       exact ⟨p1, p2, fun i hi q hq => p3 i hi q (hsub i q hq)⟩
-    ord := fun hp => by
+    ord := fun hg0 hr0 hp => by
       have hp0 := hprem hp
-      have o := h.ord hp0
+      have o := h.ord hg0 hr0 hp0
       have hstfl : st.ts ≤ fl := o.bufFloor j st (by rw [hb]; exact List.mem_cons_self ..)
       have hjr : j ∈ s.registry := h.cacheReg j hj
       -- the crux
@@ -423,7 +454,7 @@ theorem PIo.pop (h : PIo fl s)
         cases hbi : (s.th i).buf with
         | nil =>
           have : r ∈ (s.th i).qStmts := by simpa [chain, hbi] using hr
-          have := hall hp0 i hi hbi r this
+          have := hall hg0 hr0 hp0 i hi hbi r this
           omega
         | cons f0 fs =>
           have hic : i ∈ s.cache := h.bufCache i hi (by rw [hbi]; simp)
@@ -471,9 +502,10 @@ theorem processLowest_eq (inj : BSt → Nat → BSt) (s : BSt) :
           | none => (plPop (plNote (processEvent s st)) i st rest, true) := rfl
 
 /-- `_process_lowest_timestamp_transit_event` -/
-theorem PIo.processLowest (hi : InjOK inj) (h : PIo fl s)
-    (hall : PremI s → ∀ i ∈ s.registry, (s.th i).buf = [] → ∀ r ∈ (s.th i).qStmts, fl ≤ r.ts) :
-    PIo fl (processLowest inj s).1 := by
+theorem PIo.processLowest (hi : InjOK inj) (h : PIo c fl s)
+    (hall : c.grace ≠ 0 → c.refreshAfterSample = true → PremI s →
+      ∀ i ∈ s.registry, (s.th i).buf = [] → ∀ r ∈ (s.th i).qStmts, fl ≤ r.ts) :
+    PIo c fl (processLowest inj s).1 := by
   rw [processLowest_eq]
   split
   · exact h
@@ -494,13 +526,13 @@ theorem PIo.processLowest (hi : InjOK inj) (h : PIo fl s)
       have hth : ∀ i, s2.th i = s.th i := fun i => by simp only [BSt.th, hths]
       have hcache : s2.cache = s.cache := congrArg Core.cache hcore
       have hreg : s2.registry = s.registry := congrArg Core.registry hcore
-      have h2 : PIo fl s2 := h.frame hcore
-      have hpop : PIo fl (plPop s2 j st rest) := by
+      have h2 : PIo c fl s2 := h.frame hcore
+      have hpop : PIo c fl (plPop s2 j st rest) := by
         unfold plPop
         refine h2.pop ?_ j (by rw [hcache]; exact hj) st rest (by rw [hth]; exact hb) ?_ _ ⟨rfl, rfl, rfl, rfl, rfl⟩
-        · intro hp i hir hbi r hr
+        · intro hg0 hr0 hp i hir hbi r hr
           rw [hth] at hbi hr; rw [hreg] at hir
-          refine hall ?_ i hir hbi r hr
+          refine hall hg0 hr0 ?_ i hir hbi r hr
           intro k q hq; have hcfg : s2.cfg = s.cfg := congrArg Core.cfg hcore
           have := hp k q; rw [hth, hcfg] at this; exact this hq
         · intro i hic f fs hfb
